@@ -137,6 +137,9 @@ pub fn lookup(id: &str) -> Option<Meta> {
                 "eintr_inside_write_fmt",
                 "history_delivered_everything",
                 "config_fault_free",
+                "fault_inside_literal_write_fmt",
+                "display_kept_writing_after_error",
+                "history_stopped_by_persistent_refusal",
             ],
             fault_free: false,
         }),
